@@ -63,6 +63,8 @@ package keystore
 //@   trusted
 //@   requires km != nil
 //@   ensures (result1 == nil) == (result0 != nil)
+// managedAny(km, enc): some keystore managed by km (current or not) holds the address with that encoding
+//@   ensures (result1 == nil) == ghostb("managedAny", km, encoded)
 
 // ---- C13 (lemma level): left padding of the decoded entropy; the checksum is computed over the full-length
 // entropy; a sentence is accepted only if every one of its words is a list word as written.
@@ -84,3 +86,11 @@ package keystore
 //@   ensures[C13] result ==> ghost("nfields", mnemonic) % 3 == 0 && ghost("nfields", mnemonic) >= 12 && ghost("nfields", mnemonic) <= 24
 //@   ensures[C13] result ==> forall qi_ int :: 0 <= qi_ && qi_ < ghost("nfields", mnemonic) ==> has(wordMap, ghosts("field", mnemonic, qi_))
 //@   loop#1 invariant forall qi_ int :: 0 <= qi_ && qi_ < iter_ ==> has(wordMap, ghosts("field", mnemonic, qi_))
+
+// privPassOK(km, wallet, pass): pass is the private passphrase of that wallet (decided by scrypt + secretbox in snacl,
+// outside the contracts); the check has no effect on the keystore
+//@ func (*KeystoreManager).CheckPrivPassphrase
+//@   trusted
+//@   pure
+//@   requires km != nil
+//@   ensures (result == nil) == ghostb("privPassOK", km, acctId, strOf(pass))
